@@ -28,13 +28,27 @@ def val(p):
 
 
 def body(args):
+    """args ordered by parameter name p0, p1, ...: distinct weights make every parameter observable"""
     s = 0
     for c, p in zip(COEF, args):
         s = s + c * val(p)
     return s > 0
 
 
-# ---- the callables under test: arity 1..3, optionally with a default on the last parameter ----
+@dataclass
+class Target:
+    what: str  # fn | pred | predkw | predinit
+    call: Any
+    arity: int
+    with_default: bool
+    order: tuple  # parameter index taken by positional slot j
+
+    @property
+    def label(self):
+        return "%s%d%s" % (self.what, self.arity, "d" if self.with_default else "")
+
+
+# ---- the callables under test ---------------------------------------------------------------
 def _mk_function(arity, with_default):
     names = ["p%d" % i for i in range(arity)]
     sig = ", ".join(n + ("=%d" % DEFAULT if with_default and i == arity - 1 else "") for i, n in enumerate(names))
@@ -43,7 +57,7 @@ def _mk_function(arity, with_default):
     exec(src, ns)
     f = ns["fn"]
     f.__name__ = "fn%d%s" % (arity, "d" if with_default else "")
-    return symbolic_function(f)
+    return Target("fn", symbolic_function(f), arity, with_default, tuple(range(arity)))
 
 
 def _mk_predicate(arity, with_default):
@@ -61,30 +75,60 @@ def _mk_predicate(arity, with_default):
         return body(args)
 
     cls = make_dataclass("Pred%d%s" % (arity, "d" if with_default else ""), flds, bases=(Predicate,), namespace={"__call__": __call__}, eq=False)
-    return cls
+    return Target("pred", cls, arity, with_default, tuple(range(arity)))
 
 
-FUNCS = {(a, d): _mk_function(a, d) for a in (1, 2, 3) for d in (False, True)}
-PREDS = {(a, d): _mk_predicate(a, d) for a in (1, 2, 3) for d in (False, True)}
+@dataclass(eq=False)
+class PredKw(Predicate):
+    """a keyword-only field declared between two ordinary ones: __init__(self, p0, p1, *, flag=0)"""
+
+    p0: Any
+    flag: Any = field(default=0, kw_only=True)
+    p1: Any = DEFAULT
+
+    def __call__(self):
+        LOG.append((self.p0, self.p1))
+        return body((self.p0, self.p1))
 
 
-def shapes(max_arity):
-    """(arity, with_default, kinds, n_positional, omit_last)"""
-    for arity in range(1, max_arity + 1):
-        for with_default in (False, True):
-            for omit in ((False, True) if with_default else (False,)):
-                n_given = arity - (1 if omit else 0)
-                for kinds in itertools.product("XYCA", repeat=n_given):
-                    if "Y" in kinds and "X" not in kinds:
-                        continue  # symmetric to X
-                    if "A" in kinds and (arity > 2 and not with_default):
-                        continue  # attribute arguments: arity <= 2 (+ default variants)
-                    for npos in range(n_given + 1):
-                        yield arity, with_default, kinds, npos, omit
+class PredInit(Predicate):
+    """hand-written constructor whose parameter order differs from the attribute order"""
+
+    def __init__(self, p1, p0):
+        self.p0 = p0
+        self.p1 = p1
+
+    def __call__(self):
+        LOG.append((self.p0, self.p1))
+        return body((self.p0, self.p1))
 
 
-def harness(what, arity, with_default, kinds, npos, omit, N):
-    target = (FUNCS if what == "fn" else PREDS)[(arity, with_default)]
+TARGETS = {}
+for _a in (1, 2, 3):
+    for _d in (False, True):
+        TARGETS[("fn", _a, _d)] = _mk_function(_a, _d)
+        TARGETS[("pred", _a, _d)] = _mk_predicate(_a, _d)
+TARGETS[("predkw", 2, True)] = Target("predkw", PredKw, 2, True, (0, 1))
+TARGETS[("predinit", 2, False)] = Target("predinit", PredInit, 2, False, (1, 0))
+
+
+def shapes(t: Target):
+    """(kinds per positional slot, n_positional, omit_last)"""
+    for omit in ((False, True) if t.with_default else (False,)):
+        n_given = t.arity - (1 if omit else 0)
+        for kinds in itertools.product("XYCA", repeat=n_given):
+            if "Y" in kinds and "X" not in kinds:
+                continue  # symmetric to X
+            if "A" in kinds and (t.arity > 2 and not t.with_default):
+                continue  # attribute arguments: arity <= 2 (+ default variants)
+            for npos in range(n_given + 1):
+                yield kinds, npos, omit
+
+
+def harness(t: Target, kinds, npos, omit, N):
+    arity = t.arity
+    # slot j (as written in the call) feeds parameter t.order[j]
+    slot_of_param = {t.order[j]: j for j in range(len(kinds))}
 
     def h(ctx):
         del LOG[:]
@@ -93,23 +137,33 @@ def harness(what, arity, with_default, kinds, npos, omit, N):
         ks = [ctx.fresh_int("k%d" % j) for j in range(arity)]
         x = let(P, xs, name="x")
         y = let(P, ys, name="y")
-        given = []
-        for j, kd in enumerate(kinds):
-            given.append(x if kd == "X" else y if kd == "Y" else x.b if kd == "A" else ks[j])
+        given = [x if kd == "X" else y if kd == "Y" else x.b if kd == "A" else ks[j] for j, kd in enumerate(kinds)]
         args = given[:npos]
-        kwargs = {"p%d" % j: given[j] for j in range(npos, len(given))}
+        kwargs = {"p%d" % t.order[j]: given[j] for j in range(npos, len(given))}
         symbolic = any(kd in "XYA" for kd in kinds)
-        r = target(*args, **kwargs)
+        r = t.call(*args, **kwargs)
         v = {}
-        full = lambda bx, by: tuple((bx if kd == "X" else by if kd == "Y" else bx.b if kd == "A" else ks[j]) for j, kd in enumerate(kinds)) + ((DEFAULT,) if omit else ())
+
+        def expected_args(bx, by):
+            """parameter values p0..p{arity-1} for the binding x=bx, y=by"""
+            out = []
+            for i in range(arity):
+                if i in slot_of_param:
+                    j = slot_of_param[i]
+                    kd = kinds[j]
+                    out.append(bx if kd == "X" else by if kd == "Y" else bx.b if kd == "A" else ks[j])
+                else:
+                    out.append(DEFAULT)
+            return tuple(out)
+
         if not symbolic:
             # concrete call: runs at once, plain result
-            if what == "fn":
+            if t.what == "fn":
                 v["concrete-runs-once"] = len(LOG) == 1
-                v["concrete-result"] = IFF(r, body(full(None, None))) if not isinstance(r, SymbolicExpression) else False
+                v["concrete-result"] = IFF(r, body(expected_args(None, None))) if not isinstance(r, SymbolicExpression) else False
             else:
-                v["concrete-is-instance"] = isinstance(r, target) and not isinstance(r, SymbolicExpression)
-                v["concrete-result"] = IFF(r(), body(full(None, None))) if isinstance(r, target) else False
+                v["concrete-is-instance"] = isinstance(r, t.call) and not isinstance(r, SymbolicExpression)
+                v["concrete-result"] = IFF(r(), body(expected_args(None, None))) if isinstance(r, t.call) else False
             ctx.observe("concrete", len(LOG))
             ctx.note("nonempty", 1)
             return v
@@ -120,67 +174,135 @@ def harness(what, arity, with_default, kinds, npos, omit, N):
         use_y = "Y" in kinds
         q = an(set_of([x, y], r)) if use_y else an(entity(x, r))
         v["not-run-by-query-construction"] = len(LOG) == 0
-        rows = []
-        for res in q.evaluate():
-            rows.append((index_of(xs, res[x]), index_of(ys, res[y])) if use_y else (index_of(xs, res), -1))
-        ctx.observe(rows, len(LOG))
-        ctx.note("nonempty", bool(rows))
         cands = [(i, j) for i in range(N) for j in (range(N) if use_y else [-1])]
-        truth = {c: body(full(xs[c[0]], ys[c[1]] if c[1] >= 0 else None)) for c in cands}
-        v["results-sound"] = AND([truth[r_] for r_ in rows if r_ in truth]) if rows else True
-        v["results-known"] = all(r_ in truth for r_ in rows)
-        v["results-complete"] = AND([IMPLIES(truth[c], c in rows) for c in cands])
-        v["results-once"] = len(set(rows)) == len(rows)
-        # call log: once per candidate binding, every parameter bound to the argument written in that position
-        v["calls-once-per-binding"] = len(LOG) == len(cands)
-        seen = []
-        okargs = []
-        attr_only = []
-        for entry in LOG:
-            if len(entry) != arity:
-                okargs.append(False)
-                continue
-            bx = by = None
-            good = True
-            terms = []
-            attr_entries = []
-            for j in range(arity):
-                kd = kinds[j] if j < len(kinds) else "D"
-                e = entry[j]
-                if kd == "X":
-                    i = index_of(xs, e)
-                    good = good and i >= 0 and (bx is None or bx == i)
-                    bx = i
-                elif kd == "Y":
-                    i = index_of(ys, e)
-                    good = good and i >= 0 and (by is None or by == i)
-                    by = i
-                elif kd == "A":
-                    attr_entries.append(e)
-                elif kd == "C":
-                    terms.append(EQ(e, ks[j]) if not isinstance(e, P) else False)
+
+        def run_and_check(tag):
+            del LOG[:]
+            rows = []
+            for res in q.evaluate():
+                rows.append((index_of(xs, res[x]), index_of(ys, res[y])) if use_y else (index_of(xs, res), -1))
+            ctx.observe(tag, rows, len(LOG))
+            ctx.note("nonempty", bool(rows))
+            truth = {c: body(expected_args(xs[c[0]], ys[c[1]] if c[1] >= 0 else None)) for c in cands}
+            v[tag + "results-sound"] = AND([truth[r_] for r_ in rows if r_ in truth]) if rows else True
+            v[tag + "results-known"] = all(r_ in truth for r_ in rows)
+            v[tag + "results-complete"] = AND([IMPLIES(truth[c], c in rows) for c in cands])
+            v[tag + "results-once"] = len(set(rows)) == len(rows)
+            # call log: once per candidate binding, every parameter bound to the argument written in that position
+            v[tag + "calls-once-per-binding"] = len(LOG) == len(cands)
+            seen, okargs, attr_only = [], [], []
+            for entry in LOG:
+                if len(entry) != arity:
+                    okargs.append(False)
+                    continue
+                bx = by = None
+                good = True
+                terms, attr_entries = [], []
+                for i in range(arity):
+                    j = slot_of_param.get(i)
+                    kd = kinds[j] if j is not None else "D"
+                    e = entry[i]
+                    if kd == "X":
+                        ix = index_of(xs, e)
+                        good = good and ix >= 0 and (bx is None or bx == ix)
+                        bx = ix
+                    elif kd == "Y":
+                        iy = index_of(ys, e)
+                        good = good and iy >= 0 and (by is None or by == iy)
+                        by = iy
+                    elif kd == "A":
+                        attr_entries.append(e)
+                    elif kd == "C":
+                        terms.append(EQ(e, ks[j]) if not isinstance(e, P) else False)
+                    else:
+                        terms.append(EQ(e, DEFAULT) if not isinstance(e, P) else False)
+                if attr_entries:
+                    if bx is not None and bx >= 0:
+                        terms.extend(EQ(e, xs[bx].b) for e in attr_entries)  # the attribute value of the same x
+                    else:
+                        # x itself is not an argument: matched below by value against some permutation of the candidates
+                        attr_only.append(attr_entries)
+                        bx = len(attr_only) - 1
+                okargs.append(AND([good] + terms))
+                seen.append((bx if bx is not None else -1, by if by is not None else -1))
+            ca = AND(okargs) if okargs else True
+            if attr_only:
+                if len(attr_only) != N:
+                    ca = False
                 else:
-                    terms.append(EQ(e, DEFAULT) if not isinstance(e, P) else False)
-            if attr_entries:
-                if bx is not None and bx >= 0:
-                    terms.extend(EQ(e, xs[bx].b) for e in attr_entries)  # the attribute value of the same x
-                else:
-                    # x itself is not an argument: matched below by value against some permutation of the candidates
-                    attr_only.append(attr_entries)
-                    bx = len(attr_only) - 1
-            okargs.append(AND([good] + terms))
-            seen.append((bx if bx is not None else -1, by if by is not None else -1))
-        v["call-arguments"] = AND(okargs) if okargs else True
-        if attr_only:
-            if len(attr_only) != N:
-                v["call-arguments"] = False
-            else:
-                perms = [AND([EQ(e, xs[pi[c]].b) for c, es in enumerate(attr_only) for e in es]) for pi in itertools.permutations(range(N))]
-                v["call-arguments"] = AND(v["call-arguments"], OR(perms))
-        v["calls-distinct-bindings"] = len(set(seen)) == len(seen)
+                    perms = [AND([EQ(e, xs[pi[c]].b) for c, es in enumerate(attr_only) for e in es]) for pi in itertools.permutations(range(N))]
+                    ca = AND(ca, OR(perms))
+            v[tag + "call-arguments"] = ca
+            v[tag + "calls-distinct-bindings"] = len(set(seen)) == len(seen)
+
+        run_and_check("")
+        # the data changes between two evaluations of the same query object: the condition is evaluated on the
+        # current values again (nothing about earlier calls may be remembered)
+        for o in xs + ys:
+            o.a, o.b = o.b - 1, o.a + 1
+        run_and_check("after-update:")
         return v
 
     return h
+
+
+# ---- value-equal but distinct candidates -----------------------------------------------------
+class H:
+    """hashable, compares equal by key; the predicate looks at w, which is not part of equality"""
+
+    def __init__(self, key, w):
+        self.key = key
+        self.w = w
+
+    def __eq__(self, o):
+        return isinstance(o, H) and self.key == o.key
+
+    def __hash__(self):
+        return hash(self.key)
+
+
+@dataclass(eq=False)
+class PredH(Predicate):
+    h: Any
+    k: Any
+
+    def __call__(self):
+        LOG.append((self.h, self.k))
+        return self.h.w > self.k
+
+
+def _fn_h(h, k):
+    LOG.append((h, k))
+    return h.w > k
+
+
+FN_H = symbolic_function(_fn_h)
+
+
+def value_equal_case(what, N):
+    def hh(ctx):
+        del LOG[:]
+        hs = [H(ctx.fresh_int("key%d" % i, 0, 1), ctx.fresh_int("w%d" % i)) for i in range(N)]
+        k = ctx.fresh_int("k", 0, 1)
+        x = let(H, hs, name="x")
+        r = PredH(x, k) if what == "pred" else FN_H(x, k)
+        v = {"symbolic-returns-condition": isinstance(r, SymbolicExpression), "not-run-at-construction": len(LOG) == 0}
+        if not all(v.values()):
+            return v
+        rows = [index_of(hs, res) for res in an(entity(x, r)).evaluate()]
+        ctx.observe(rows, len(LOG))
+        ctx.note("nonempty", bool(rows))
+        truth = [o.w > k for o in hs]
+        v["results-sound"] = AND([truth[i] for i in rows if i >= 0]) if rows else True
+        v["results-complete"] = AND([IMPLIES(truth[i], i in rows) for i in range(N)])
+        v["results-once"] = len(set(rows)) == len(rows)
+        v["calls-once-per-binding"] = len(LOG) == N
+        v["call-arguments"] = sorted(index_of(hs, e[0]) for e in LOG) == list(range(N)) and all(not isinstance(e[1], H) for e in LOG)
+        if v["call-arguments"]:
+            v["call-arguments"] = AND([EQ(e[1], k) for e in LOG])
+        return v
+
+    return hh
 
 
 def merge_case():
@@ -213,31 +335,37 @@ def merge_case():
     return h
 
 
-def shape_name(what, arity, with_default, kinds, npos, omit):
+def shape_name(t: Target, kinds, npos, omit):
     parts = []
     for j, kd in enumerate(kinds):
-        parts.append(("" if j < npos else "p%d=" % j) + {"X": "x", "Y": "y", "C": "k", "A": "x.b"}[kd])
-    return "%s%d%s(%s)%s" % (what, arity, "d" if with_default else "", ",".join(parts), "+default" if omit else "")
+        parts.append(("" if j < npos else "p%d=" % t.order[j]) + {"X": "x", "Y": "y", "C": "k", "A": "x.b"}[kd])
+    return "%s(%s)%s" % (t.label, ",".join(parts), "+default" if omit else "")
 
 
 def cases(tier, seed):
     max_arity = 2 if tier == "quick" else 3
     N = 2
     cs = [Case("merge_args_and_kwargs", merge_case(), reset=eql_reset)]
-    for what in ("fn", "pred"):
-        for (arity, d, kinds, npos, omit) in shapes(max_arity):
-            nm = shape_name(what, arity, d, kinds, npos, omit)
-            cs.append(Case(nm, harness(what, arity, d, kinds, npos, omit, N), reset=eql_reset, timeout=120, meta=dict(N=N)))
+    for what in ("pred", "fn"):
+        cs.append(Case("%s(value-equal candidates)" % what, value_equal_case(what, 3), reset=eql_reset, timeout=300))
+    for key, t in TARGETS.items():
+        if t.arity > max_arity:
+            continue
+        for kinds, npos, omit in shapes(t):
+            cs.append(Case(shape_name(t, kinds, npos, omit), harness(t, kinds, npos, omit, N), reset=eql_reset, timeout=120, meta=dict(N=N)))
     return cs
 
 
 def describe(tier):
     max_arity = 2 if tier == "quick" else 3
     return dict(
-        rule="every call shape: callable kind {symbolic_function, Predicate subclass} x arity 1..%d x {no default, default on last parameter given/omitted} "
-        "x each argument a variable (x or y), an attribute of a variable (x.b) or a concrete symbolic integer x every positional/keyword split; non-trivial = >= 2 feasible paths and a non-empty result on some path" % max_arity,
-        bounds=dict(arity="<= %d" % max_arity, objects_per_domain=2, argument_values="unbounded integers", variables="<= 2 (x, y)"),
-        outside=["*args/**kwargs signatures, keyword-only parameters", "arity > %d" % max_arity, "domains of more than 2 objects"],
+        rule="every call shape: callable kind {symbolic_function, dataclass Predicate, Predicate with a keyword-only field between ordinary ones, "
+        "Predicate with a hand-written __init__ in another order} x arity 1..%d x {no default, default on last parameter given/omitted} "
+        "x each argument a variable (x or y), an attribute of a variable (x.b) or a concrete symbolic integer x every positional/keyword split; "
+        "each shape is evaluated, its data is updated, and it is evaluated again; plus value-equal-but-distinct hashable candidates; "
+        "non-trivial = >= 2 feasible paths and a non-empty result on some path" % max_arity,
+        bounds=dict(arity="<= %d" % max_arity, objects_per_domain="2 (3 in the value-equal case)", argument_values="unbounded integers", variables="<= 2 (x, y)"),
+        outside=["*args/**kwargs signatures", "arity > %d" % max_arity, "domains of more than 3 objects"],
         assumptions=["body is a weighted sum of the parameters compared with 0 (distinct weights make every position observable)",
                      "call order is not asserted, only one call per candidate binding"],
     )
